@@ -35,7 +35,7 @@ func init() {
 			return 5760
 		},
 		Run:        runC17,
-		Required:   []string{"runs.cross_process_stuttered", "runs.in_process", "runs.same_input_objects", "runs.copied_options", "runs.cross_process", "scenarios.random_population", "scenarios.spawned", "scenarios.modular_start_genome_with_crossover", "runs.through_experiment_execute", "epochs.compared"},
+		Required:   []string{"runs.cross_process_stuttered", "runs.in_process", "runs.same_input_objects", "runs.copied_options", "runs.cross_process", "scenarios.random_population", "scenarios.spawned", "scenarios.modular_start_genome_with_crossover", "runs.through_experiment_execute", "epochs.compared", "scenarios.fitness_with_ties", "scenarios.fitness_mostly_negative", "scenarios.population_of_thousands"},
 		TimeoutSec: func(tier string) int { return 7200 },
 	})
 }
@@ -67,6 +67,9 @@ func c17Scenario(seed int64, idx int) (*EvoScenario, int64) {
 			sc.Opts.DropOffAge = 1 + g.Intn(8)
 		}
 	}
+	if idx%3 == 1 && g.Intn(2) == 0 {
+		sc.signedFitness = true
+	}
 	if sc.Ctor == ctorRead {
 		sc.Ctor = ctorSpawn
 	}
@@ -75,6 +78,16 @@ func c17Scenario(seed int64, idx int) (*EvoScenario, int64) {
 		if sc.Opts.BabiesStolen > 40 {
 			sc.Opts.BabiesStolen = 40
 		}
+	}
+	if idx%64 == 7 {
+		// a population of thousands (spawned, one or two species, two turnovers): sizes at which an implementation may switch to
+		// another way of doing the same work
+		sc.Ctor = ctorSpawn
+		sc.Opts.PopSize = pick(g, 2048, 2500, 4096, 6000)
+		sc.Opts.CompatThreshold = pick(g, 1e6, 6.0)
+		sc.Opts.BabiesStolen = pick(g, 0, 10)
+		sc.Epochs = 2
+		sc.hugePopulation = true
 	}
 	if idx%16 == 5 {
 		// a modular start genome (the shipped one, rewired), crossovers included: a handful of epochs only, because every mating
@@ -119,6 +132,22 @@ func coarseFitness(s *SnapGenome) float64 {
 	return float64(1 + s.structFingerprint()%5)
 }
 
+// signedFitness is negative for four organisms in five: C17 puts no condition on the sign of a fitness value, it only has to be
+// a deterministic function
+func signedFitness(s *SnapGenome) float64 {
+	return snapFitness(s) - 80
+}
+
+func c17Fitness(sc *EvoScenario, coarse, signed bool, g *genetics.Genome) float64 {
+	switch {
+	case coarse:
+		return coarseFitness(snapGenome(g))
+	case signed:
+		return signedFitness(snapGenome(g))
+	}
+	return snapFitness(snapGenome(g))
+}
+
 // c17Execute runs the scenario from the seed and returns hash of the population after every epoch
 func c17Execute(sc *EvoScenario, libSeed int64) *c17Result {
 	res := &c17Result{}
@@ -138,11 +167,7 @@ func c17Execute(sc *EvoScenario, libSeed int64) *c17Result {
 	ctx := neat.NewContext(context.Background(), sc.Opts)
 	for gen := 0; gen < sc.Epochs; gen++ {
 		for _, org := range pop.Organisms {
-			if sc.coarseFitness {
-				org.Fitness = coarseFitness(snapGenome(org.Genotype))
-			} else {
-				org.Fitness = snapFitness(snapGenome(org.Genotype))
-			}
+			org.Fitness = c17Fitness(sc, sc.coarseFitness, sc.signedFitness, org.Genotype)
 		}
 		if err = ex.NextEpoch(ctx, gen, pop); err != nil {
 			res.errText = fmt.Sprintf("epoch %d: %v", gen, err)
@@ -178,16 +203,13 @@ func c17Execute(sc *EvoScenario, libSeed int64) *c17Result {
 // the same hash of the population at every generation
 type c17Evaluator struct {
 	coarse bool
+	signed bool
 	hashes []string
 }
 
 func (e *c17Evaluator) GenerationEvaluate(_ context.Context, pop *genetics.Population, epoch *experiment.Generation) error {
 	for _, org := range pop.Organisms {
-		if e.coarse {
-			org.Fitness = coarseFitness(snapGenome(org.Genotype))
-		} else {
-			org.Fitness = snapFitness(snapGenome(org.Genotype))
-		}
+		org.Fitness = c17Fitness(nil, e.coarse, e.signed, org.Genotype)
 	}
 	e.hashes = append(e.hashes, c17Hash(pop))
 	epoch.FillPopulationStatistics(pop)
@@ -204,7 +226,7 @@ func c17ViaExecute(sc *EvoScenario, libSeed int64) ([]string, string) {
 		o.NumGenerations = sc.Epochs
 	}
 	o.EpochExecutorType = neat.EpochExecutorTypeSequential
-	ev := &c17Evaluator{coarse: sc.coarseFitness}
+	ev := &c17Evaluator{coarse: sc.coarseFitness, signed: sc.signedFitness}
 	exp := experiment.Experiment{Id: 0}
 	rand.Seed(libSeed)
 	err := exp.Execute(neat.NewContext(context.Background(), &o), sc.Start, ev, nil)
@@ -340,6 +362,15 @@ func runC17(c *Ctx, idx int) {
 		}
 		// an epoch failure is C02's matter; here it only has to fail the same way
 		c.Count("scenarios.ended_in_error", 1)
+	}
+	if sc.coarseFitness {
+		c.Count("scenarios.fitness_with_ties", 1)
+	}
+	if sc.signedFitness {
+		c.Count("scenarios.fitness_mostly_negative", 1)
+	}
+	if sc.hugePopulation {
+		c.Count("scenarios.population_of_thousands", 1)
 	}
 	if sc.Ctor == ctorRandom {
 		c.Count("scenarios.random_population", 1)
